@@ -253,6 +253,19 @@ pub fn mangle(t: &mut Tape, rng: &mut SimRng, layout: &Layout, orig: &[u8], cx: 
                 _ => false,
             },
             10 => match pick(t, FieldKind::Point) {
+                Some(f) if t.chance(1, 4) => {
+                    // another point field of the *same* message (hiding := binding, entry i := entry j):
+                    // individually valid values in an unusual relation
+                    let others: Vec<Field> = fields.iter().cloned().filter(|g| g.kind == FieldKind::Point && g.off != f.off && g.len == f.len).collect();
+                    if others.is_empty() {
+                        false
+                    } else {
+                        let g = others[t.usize(others.len())];
+                        let v = orig[g.off..g.off + g.len].to_vec();
+                        b[f.off..f.off + f.len].copy_from_slice(&v);
+                        true
+                    }
+                }
                 Some(f) if !cx.points.is_empty() => {
                     let v = &cx.points[t.usize(cx.points.len())];
                     if v.len() == f.len {
